@@ -219,6 +219,17 @@ def e9_or_pattern_guard(src, report):
     return src
 
 
+def e10_derived_clone(src, report):
+    """MarkTruncation's derived Clone gets an assumed specification (Verus gives a derived Clone
+    that is not a Copy no specification)."""
+    m = list(re.finditer(r"#\[derive\(Clone\)\]\s*(?=(?:pub\s+)?struct\s+MarkTruncation\b)", src))
+    if len(m) != 1:
+        raise Lost("E10: `#[derive(Clone)] struct MarkTruncation` not found")
+    src = src[:m[0].end()] + "#[verifier::external_derive(Clone)]\n" + src[m[0].end():]
+    report["E10_external_derive"] = ["MarkTruncation: Clone"]
+    return src
+
+
 def extract(gen_src):
     """Returns (text, report)."""
     report = {}
@@ -229,6 +240,7 @@ def extract(gen_src):
         s = e23_external_bodies(s, report)
         s = e6_pub_fields(s, report)
         s = e9_or_pattern_guard(s, report)
+        s = e10_derived_clone(s, report)
         s, ext = e8_ordered_choice(s, report)
     except LexError as e:
         raise Lost("lexing emitted text failed: %s" % e)
